@@ -3,8 +3,6 @@
 package index
 
 import (
-	"sort"
-
 	"github.com/sourcegraph/zoekt/internal/ctags"
 	verifrt "github.com/sourcegraph/zoekt/zz_verifrt"
 )
@@ -66,17 +64,17 @@ func H_C37_convert() {
 		}
 		verifrt.Assert(okText, "section text is the symbol name, on one line")
 	}
-	// the acceptance checks of ShardBuilder.Add (shard_builder.go: sort + overlap + range)
-	doc := Document{Content: content, Symbols: secs, SymbolsMetaData: meta}
-	sort.Sort(symbolSlice{doc.Symbols, doc.SymbolsMetaData})
-	var last DocumentSection
-	for i, s := range doc.Symbols {
-		if i > 0 {
-			verifrt.Assert(!(last.End > s.Start), "ShardBuilder.Add would not report 'sections overlap'")
-		}
-		last = s
+	// the real ShardBuilder.Add accepts what Convert produced (its sort, overlap and range checks
+	// depend only on the sections and the content length, so the content handed to Add is a
+	// concrete filler of the same length: trigram indexing of symbolic bytes is not the subject here)
+	filler := make([]byte, n)
+	for i := range filler {
+		filler[i] = 'x'
 	}
-	verifrt.Assert(!(last.End > uint32(len(doc.Content))), "ShardBuilder.Add would not report 'section goes past end of content'")
+	sb, berr := NewShardBuilder(nil)
+	verifrt.Assert(berr == nil, "builder")
+	aerr := sb.Add(Document{Name: "f", Content: filler, Symbols: secs, SymbolsMetaData: meta, Language: "Go", Category: FileCategoryDefault})
+	verifrt.Assert(aerr == nil, "ShardBuilder.Add accepts the sections Convert derived from ctags")
 	verifrt.Reach("returned")
 }
 
